@@ -100,6 +100,8 @@ MUTANTS = [
     ("plots-infeasible-status-ignored", PLOTS, 'if res["status"] == 2:\n        raise ValueError("Constraints are unfeasible")', "pass", ["C18"], []),
     ("plots-y-limits-swapped", PLOTS, "constraints.append(PolyhedralTerm({y_var: 1}, y_lims[1]))", "constraints.append(PolyhedralTerm({y_var: 1}, x_lims[1]))", ["C18"], []),
     ("reduce-polytope-context-assert", POLY, "elif np.any(np.asarray(b_help) < 0):\n            # the context only has constraints without variables (0 <= b): a negative b makes it unsatisfiable\n            raise ValueError(\"The constraints are unsatisfiable\")", "else:\n            assert len(b_help) == 0", ["C14", "C07"], []),
+    ("is-empty-variable-free", POLY, "return bool(np.any(np.asarray(b) < 0))\n        assert n == len(b)\n        objective", "return False\n        assert n == len(b)\n        objective", ["C11"], []),
+    ("simplify-variable-free-valueerror", POLY, "if m == 0 and n > 1:", "if False:", ["C07"], []),
 ]
 
 
